@@ -18,6 +18,7 @@ core = simproc.core
 ID = "C05"
 LEVEL = "exploration"
 BATCH = 50
+PROBES_EXPECTED = ['probe:selection-changed', 'probe:load-handwritten', 'probe:user-pick-invisible', 'probe:checkpoint']
 TIERS = {"quick": {"runs": 12000, "wall": 50}, "thorough": {"runs": 500000, "wall": 840}}
 RULE = ("each run draws a program with >=1 choice (named/unnamed, conditional members and defaults, `if` inside the choice), knobs (parser, "
         "policy, set-order salt) and a history of 3-30 operations biased towards member assignments and the options member/default conditions "
